@@ -824,23 +824,55 @@ impl<'a> Parser<'a> {
         // Parse decorators first
         let decorators = self.parse_decorators()?;
 
-        let static_ = self.match_token(&TokenKind::Static);
+        // Modifiers, in the order TypeScript accepts them or any other: public / private /
+        // protected, static, abstract, override, declare, readonly, accessor. A modifier word
+        // directly followed by `(`, `=`, `:`, `;`, ... is the member's own name: `static() {}`.
+        let mut static_ = false;
+        let mut is_abstract = false;
+        let mut accessibility = None;
+        let mut readonly = false;
+        let mut accessor = false;
+        loop {
+            let is_modifier = matches!(
+                self.current.kind,
+                TokenKind::Static
+                    | TokenKind::Abstract
+                    | TokenKind::Declare
+                    | TokenKind::Public
+                    | TokenKind::Private
+                    | TokenKind::Protected
+                    | TokenKind::Readonly
+                    | TokenKind::Accessor
+            ) || self.check_keyword("override");
+            if !is_modifier || self.peek_ends_member_name() {
+                break;
+            }
+            match self.current.kind {
+                TokenKind::Static => static_ = true,
+                TokenKind::Abstract => is_abstract = true,
+                TokenKind::Readonly => readonly = true,
+                TokenKind::Accessor => accessor = true,
+                TokenKind::Public | TokenKind::Private | TokenKind::Protected => {
+                    accessibility = self.parse_accessibility();
+                    continue;
+                }
+                // declare, override
+                _ => {}
+            }
+            self.advance();
 
-        // Check for static initialization block: static { ... }
-        if static_ && self.check(&TokenKind::LBrace) {
-            let block = self.parse_block_statement()?;
-            return Ok(ClassMember::StaticBlock(block));
+            // Check for static initialization block: static { ... }
+            if static_ && self.check(&TokenKind::LBrace) {
+                let block = self.parse_block_statement()?;
+                return Ok(ClassMember::StaticBlock(block));
+            }
         }
 
-        // Parse abstract modifier (TypeScript)
-        let is_abstract = self.match_token(&TokenKind::Abstract);
-
-        let accessibility = self.parse_accessibility();
-        let readonly = self.match_token(&TokenKind::Readonly);
-        let accessor = self.match_token(&TokenKind::Accessor);
-
-        // Check for async method
-        let is_async = self.match_token(&TokenKind::Async);
+        // Check for async method (`async() {}` is a method called async)
+        let is_async = self.check(&TokenKind::Async) && !self.peek_ends_member_name();
+        if is_async {
+            self.advance();
+        }
 
         // Check for generator method (either *method() or async *method())
         let is_generator = self.match_token(&TokenKind::Star);
@@ -859,11 +891,11 @@ impl<'a> Parser<'a> {
             })));
         }
 
-        // Check for getter/setter
-        let method_kind = if self.check_keyword("get") {
+        // Check for getter/setter (`get() {}` and `set = 1` are members called get and set)
+        let method_kind = if self.check_keyword("get") && !self.peek_ends_member_name() {
             self.advance();
             MethodKind::Get
-        } else if self.check_keyword("set") {
+        } else if self.check_keyword("set") && !self.peek_ends_member_name() {
             self.advance();
             MethodKind::Set
         } else {
